@@ -72,6 +72,7 @@ type stateAPI interface {
 	RandaoMixes() (common.RandaoMixes, error)
 	SeedRandao(spec *common.Spec, seed common.Root) error
 	Slashings() (common.Slashings, error)
+	JustificationBits() (common.JustificationBits, error)
 	SetJustificationBits(bits common.JustificationBits) error
 	SetPreviousJustifiedCheckpoint(c common.Checkpoint) error
 	SetCurrentJustifiedCheckpoint(c common.Checkpoint) error
@@ -409,6 +410,18 @@ func apply(hc *hctx, h *handle, a *Action) (out outcome, lerr error) {
 		}
 		m.set("justification_bits", bits)
 		lerr = st.SetJustificationBits(common.JustificationBits{byte(a.u(0) & 0x0f)})
+	case "ShiftJustificationBits":
+		// what process_justification_and_finalization does: read, NextEpoch() (shift, drop the oldest), maybe set bits 0/1, write back
+		cur := m.get("justification_bits").([]bool)
+		next := []bool{a.u(0)&1 != 0, cur[0] || a.u(0)&2 != 0, cur[1], cur[2]}
+		m.set("justification_bits", next)
+		var jb common.JustificationBits
+		jb, lerr = st.JustificationBits()
+		if lerr == nil {
+			jb.NextEpoch()
+			jb[0] |= byte(a.u(0) & 3)
+			lerr = st.SetJustificationBits(jb)
+		}
 	case "SetPreviousJustifiedCheckpoint", "SetCurrentJustifiedCheckpoint", "SetFinalizedCheckpoint":
 		name := map[string]string{"SetPreviousJustifiedCheckpoint": "previous_justified_checkpoint", "SetCurrentJustifiedCheckpoint": "current_justified_checkpoint", "SetFinalizedCheckpoint": "finalized_checkpoint"}[a.Op]
 		m.set(name, dec(m.ft(name), a.bytes(0)))
@@ -893,7 +906,7 @@ var opWeights = []struct {
 	{"SetBlockRoot", 3, 0, 5}, {"SetStateRoot", 2, 0, 5}, {"AppendHistoricalRoot", 3, 0, 5},
 	{"AppendEth1Vote", 3, 0, 5}, {"ResetEth1Votes", 1, 0, 5}, {"ValSet", 6, 0, 5}, {"AddValidator", 4, 0, 5},
 	{"SetBalance", 3, 0, 5}, {"AppendBalance", 2, 0, 5}, {"SetBalances", 2, 0, 5}, {"SetRandomMix", 3, 0, 5},
-	{"SeedRandao", 1, 0, 5}, {"AddSlashing", 2, 0, 5}, {"ResetSlashings", 1, 0, 5}, {"SetJustificationBits", 2, 0, 5},
+	{"SeedRandao", 1, 0, 5}, {"AddSlashing", 2, 0, 5}, {"ResetSlashings", 1, 0, 5}, {"SetJustificationBits", 2, 0, 5}, {"ShiftJustificationBits", 4, 0, 5},
 	{"SetPreviousJustifiedCheckpoint", 1, 0, 5}, {"SetCurrentJustifiedCheckpoint", 1, 0, 5}, {"SetFinalizedCheckpoint", 1, 0, 5},
 	{"SetFlags", 4, 1, 5}, {"FillZeroes", 2, 1, 5}, {"RotateParticipation", 2, 1, 5}, {"SetInactivityScore", 3, 1, 5},
 	{"SetCurrentSyncCommittee", 1, 1, 5}, {"SetNextSyncCommittee", 1, 1, 5}, {"RotateSyncCommittee", 1, 1, 5},
@@ -940,7 +953,7 @@ func genAction(rt *rapid.T, p *reg.Preset, fork string, fi int, stateT *refssz.T
 	}
 	a := Action{Op: rapid.SampledFrom(ops).Draw(rt, "op"), On: rapid.IntRange(0, 2).Draw(rt, "on")}
 	switch a.Op {
-	case "SetGenesisTime", "SetSlot", "AppendBalance", "SetNextWithdrawalIndex", "SetNextWithdrawalValidatorIndex", "SetJustificationBits":
+	case "SetGenesisTime", "SetSlot", "AppendBalance", "SetNextWithdrawalIndex", "SetNextWithdrawalValidatorIndex", "SetJustificationBits", "ShiftJustificationBits":
 		a.U = []uint64{genU(rt, "u")}
 	case "SetGenesisValidatorsRoot", "AppendHistoricalRoot", "SeedRandao":
 		a.Hex = []string{genRoot(rt, "root")}
